@@ -98,6 +98,10 @@ def gen_system(rng, kind, n):
         elif kind == "singular":
             A = rng.integers(-2, 3, size=(n, max(1, n - 1)))
             M = A @ A.T
+        elif kind == "illcond":
+            # eigenvalues spread over almost three decades, small symmetric perturbation: slow residual decay
+            S = rng.integers(-1, 2, size=(n, n))
+            M = np.diag(np.array([1, 9, 80, 700])[:n] * int(rng.integers(1, 3))) + np.triu(S, 1) + np.triu(S, 1).T
         elif kind == "diag":
             M = np.diag(rng.integers(-3, 6, size=n))
         else:  # indefinite
@@ -250,6 +254,31 @@ def gen_configs(rng, h, M, j, x0):
             out.append(dict(base, absdelta=ed * 1.7, maxiter=m, miniter=m))
             out.append(dict(base, absdelta=ed * 1.7, resnorm=float(rows[m - 1]["norm1"]) * 0.37, maxiter=m + 1))
             out.append(dict(base, absdelta=ed * 0.6, maxiter=m, miniter=0))
+    # precedence of the stopping options: `absdelta` / `resnorm`, when given, switch the tol/atol fallback OFF.
+    # absdelta (resp. resnorm) is placed below everything the trajectory reaches inside the horizon, tol / atol
+    # so that tol*|j| (resp. atol) lies between two successive residual norms: the fallback "would fire first".
+    eds = [float(rows[m - 1]["ediff"]) for m in reg if float(rows[m - 1]["ediff"]) > 0]
+    for m in reg:
+        for o in (1, 2):
+            key = "norm1" if o == 1 else "norm2sq"
+            cur, prv = rows[m - 1][key], prev(key, m)
+            if not prv > cur or cur == 0:
+                continue
+            t = between(prv, cur)
+            rn = math.sqrt(t) if o == 2 else t
+            jn = sum(abs(v) for v in j) if o == 1 else math.sqrt(sum(v * v for v in j))
+            later = [float(rows[q - 1][key]) for q in reg if float(rows[q - 1][key]) > 0]
+            tiny_rn = 0.5 * min(later)
+            tiny_rn = math.sqrt(tiny_rn) if o == 2 else tiny_rn
+            for mx in (m + 1, m + 2, K):
+                if eds:
+                    out.append(dict(base, absdelta=0.5 * min(eds), tol=rn / jn, norm_ord=o, maxiter=mx, _prio=1))
+                    out.append(dict(base, absdelta=0.5 * min(eds), tol=0.0, atol=rn, norm_ord=o, maxiter=mx, _prio=1))
+                    out.append(dict(base, absdelta=0.5 * min(eds), tol=rn / jn, atol=rn, norm_ord=o, maxiter=mx, miniter=None, _prio=1))
+                out.append(dict(base, resnorm=tiny_rn, tol=rn / jn, norm_ord=o, maxiter=mx, _prio=1))
+                out.append(dict(base, resnorm=tiny_rn, tol=0.0, atol=rn, norm_ord=o, maxiter=mx, _prio=1))
+                if eds:
+                    out.append(dict(base, absdelta=0.5 * min(eds), resnorm=tiny_rn, tol=rn / jn, atol=rn, norm_ord=o, maxiter=mx, _prio=1))
     out.append(dict(base, resnorm=1e-7, maxiter=0))                                   # open finding C15-F3
     out.append(dict(base, resnorm=1e-7, maxiter=1))
     out.append(dict(base, resnorm=1e-7, maxiter=K))
@@ -275,7 +304,7 @@ def gen_configs(rng, h, M, j, x0):
 def gen_cases(ctx, salt=15, nsys=None):
     rng = ctx.rng(salt)
     nsys = nsys or (18 if ctx.quick else 150)
-    kinds = ["hpd", "indef", "negdef", "singular", "diag", "hpd", "indef"]
+    kinds = ["hpd", "indef", "negdef", "illcond", "singular", "diag", "hpd", "illcond", "indef"]
     cases = []
     tries = 0
     nsel = 0
@@ -294,11 +323,15 @@ def gen_cases(ctx, salt=15, nsys=None):
         if not cfgs:
             continue
         per = 6 if ctx.quick else 12
-        idx = rng.permutation(len(cfgs))[:per]
+        prio = [i for i, c in enumerate(cfgs) if c.get("_prio")]
+        rest = [i for i, c in enumerate(cfgs) if not c.get("_prio")]
+        nprio = min(len(prio), 3 if ctx.quick else 6)
+        idx = [prio[i] for i in rng.permutation(len(prio))[:nprio]] + [rest[i] for i in rng.permutation(len(rest))[:per - nprio]]
         tree = ["flat", "dict", "nested"][int(rng.integers(0, 3))]
         nreset = [20, 20, 2, 3][int(rng.integers(0, 4))]
         for i in sorted(idx):
-            cases.append({"M": M, "j": j, "x0": x0, "kw": cfgs[i], "tree": tree, "kind": kind, "nreset": nreset})
+            cases.append({"M": M, "j": j, "x0": x0, "kw": {k: v for k, v in cfgs[i].items() if not k.startswith("_")},
+                          "tree": tree, "kind": kind, "nreset": nreset, "prec": bool(cfgs[i].get("_prio"))})
         nsel += 1
     return cases
 
@@ -563,6 +596,7 @@ class C15(C.Check):
                     "distinct by (kind, x0?, tree, ord, absdelta?, resnorm?, miniter, maxiter, raise, verdict, info, nit)",
             "samples": [{"case": strip(c), "eager": o["eager"], "static": o["static"]} for c, o in list(zip(self.cases, self.obs))[3:6]],
             "input_distribution": dist, "disagreements": len(bad), "exhaustive": False,
+            "option_precedence_cases": sum(1 for c in self.cases if c.get("prec")),
             "with_lowered_N_RESET": sum(1 for c in self.cases if c.get("nreset", 20) != 20),
             "at_iteration_limit": sum(1 for c, o in zip(self.cases, self.obs)
                                       if c["kw"]["maxiter"] is not None and o["eager"]["nit"] == c["kw"]["maxiter"] and o["eager"]["info"] == 0),
